@@ -6,6 +6,11 @@ pub mod memory_storage;
 mod storage_records;
 mod write_ahead_log;
 
+#[cfg(agdb_verif)]
+pub mod verif_fs;
+#[cfg(agdb_verif)]
+pub mod verif_storage;
+
 use self::storage_records::StorageRecord;
 use self::storage_records::StorageRecords;
 use crate::DbError;
